@@ -2,6 +2,7 @@ package core
 
 import (
 	"bufio"
+	"bytes"
 	"encoding/json"
 	"fmt"
 	"os"
@@ -14,6 +15,7 @@ import (
 	"strings"
 	"sync"
 	"sync/atomic"
+	"syscall"
 	"time"
 )
 
@@ -98,7 +100,16 @@ type workerMsg struct {
 	Nontrivial int64            `json:"nontrivial,omitempty"`
 }
 
-// HangLimit is the per-scenario supervisor limit.
+// cpuNanos is the processor time (user + system) this process has consumed.
+func cpuNanos() int64 {
+	var ru syscall.Rusage
+	if syscall.Getrusage(syscall.RUSAGE_SELF, &ru) != nil {
+		return 0
+	}
+	return ru.Utime.Nano() + ru.Stime.Nano()
+}
+
+// HangLimit is the per-scenario supervisor limit (processor time).
 var HangLimit = 20 * time.Second
 
 // Worker executes the run indices idx ≡ w (mod W), idx >= start, of a property tier.
@@ -123,21 +134,36 @@ func Worker(prop, tier string, seed uint64, w, W int, start, runLimit int64) int
 		mu.Unlock()
 	}
 	limit := HangLimit
+	const wallCap = 10 * time.Minute
 	if prop != "C03" {
 		// Only C03's subject is termination; elsewhere the supervisor merely guards the harness
 		// and must not fire because the machine is busy.
 		limit = 6 * HangLimit
 	}
 	var cur atomic.Int64
-	var curStart atomic.Int64
+	var curStart, curCPU atomic.Int64
 	cur.Store(-1)
-	go func() { // supervisor: a run that exceeds HangLimit is reported and the worker exits
+	go func() {
+		// Supervisor. A run that does not terminate in this single-goroutine simulation spins (the
+		// simulated reader never blocks), so it is recognised by the processor time the worker
+		// consumes during the run, not by the wall clock: a stalled or overloaded machine must not
+		// look like a hang. The wall clock only guards the harness (exit 2, never a verdict).
 		for {
 			time.Sleep(500 * time.Millisecond)
 			c := cur.Load()
-			if c >= 0 && time.Since(time.Unix(0, curStart.Load())) > limit {
+			if c < 0 {
+				continue
+			}
+			if cpuNanos()-curCPU.Load() > int64(limit) {
+				if cur.Load() != c {
+					continue
+				}
 				emit(workerMsg{T: "hang", Idx: c})
 				os.Exit(3)
+			}
+			if time.Since(time.Unix(0, curStart.Load())) > wallCap {
+				emit(workerMsg{T: "harness", Idx: c, Err: fmt.Sprintf("run %d made no progress for %v of wall-clock time while consuming less than %v of processor time (machine stalled?)", c, wallCap, limit)})
+				os.Exit(2)
 			}
 		}
 	}()
@@ -152,6 +178,7 @@ func Worker(prop, tier string, seed uint64, w, W int, start, runLimit int64) int
 	}
 	for idx := first; idx < n; idx += int64(W) {
 		curStart.Store(time.Now().UnixNano())
+		curCPU.Store(cpuNanos())
 		cur.Store(idx)
 		sc := e.Generate(NewPRNG(Mix(seed, prop, idx)), tier, idx)
 		o, herr := SafeExecute(e, prop, sc, false)
@@ -526,6 +553,44 @@ func Check(o CheckOpts) int {
 		fmt.Fprintln(os.Stderr, "HARNESS-ERROR:", werr)
 		return 2
 	}
+	// A supervisor expiry is confirmed before it counts: the run is repeated alone in a fresh
+	// process (a stalled machine must not turn into a verdict). If it completes there, whatever it
+	// found is merged and the expiry is dropped.
+	var confirmed []int64
+	for _, h := range agg.hangs {
+		one := o
+		one.Workers = 1
+		cmd := exec.Command(o.SelfExe, "worker", "-prop", o.Prop, "-tier", o.Tier, "-seed", strconv.FormatUint(o.Seed, 10),
+			"-w", "0", "-W", "1", "-start", strconv.FormatInt(h, 10), "-limit", strconv.FormatInt(h+1, 10))
+		cmd.Stderr = os.Stderr
+		cmd.Env = append(os.Environ(), "GOMAXPROCS=2")
+		outb, _ := cmd.Output()
+		again, done := false, false
+		for _, line := range bytes.Split(outb, []byte{'\n'}) {
+			var m workerMsg
+			if json.Unmarshal(line, &m) != nil {
+				continue
+			}
+			switch m.T {
+			case "hang":
+				again = true
+			case "viol":
+				agg.viol = append(agg.viol, m)
+			case "sum":
+				done = true
+				for k, v := range m.ViolCount {
+					agg.ViolCount[k] += v
+				}
+			}
+		}
+		if again || !done {
+			confirmed = append(confirmed, h)
+		} else {
+			fmt.Printf("note: run %d exceeded the supervisor limit once but completes when repeated alone (busy machine); not a verdict\n", h)
+		}
+	}
+	agg.hangs = confirmed
+	sort.Slice(agg.viol, func(i, j int) bool { return agg.viol[i].Idx < agg.viol[j].Idx })
 	// Hangs: a verdict only for the engine whose subject is termination.
 	for _, h := range agg.hangs {
 		sc := e.Generate(NewPRNG(Mix(o.Seed, o.Prop, h)), o.Tier, h)
